@@ -1030,6 +1030,11 @@ class PolarsModel(data_algebra.data_model.DataModel):
             coalesce_columns = set(op.sources[0].columns_produced()).intersection(
                 op.sources[1].columns_produced()
             ) - set(op.on_a)
+            if how == "outer":
+                # a full join keeps both copies of a same-named key: right-only rows need the right copy
+                coalesce_columns = coalesce_columns.union(
+                    [c_a for c_a, c_b in zip(op.on_a, op.on_b) if c_a == c_b]
+                )
             orphan_keys = [c for c in op.on_b if c not in set(op.on_a)]
             input_right = inputs[1]
             if len(orphan_keys) > 0:
